@@ -138,6 +138,16 @@ def opOfJson (j : Json) : Except String Tbl.Op := do
   | "fix_chainID" => pure Tbl.Op.fixChainID
   | n => .error s!"unknown modification {n}"
 
+/-- one step of a history: a modification, or a query on the current state -/
+inductive HistItem
+  | modify (op : Tbl.Op)
+  | query (columns tn : Py.Str) (kw : List Kw)
+
+def histItemOfJson (j : Json) : Except String HistItem := do
+  match ← jStr j "name" with
+  | "get" => pure (.query (← strOf j "columns") (← strOf j "tn") (← kwsOfJson j "kw"))
+  | _ => pure (.modify (← opOfJson j))
+
 def wopOfJson (j : Json) : Except String WOp := do
   match ← jStr j "w" with
   | "modify" => pure (WOp.modify (← jInt j "k").toNat (← opOfJson (← j.getObjVal? "op")))
